@@ -147,3 +147,9 @@ func init() {
 		Rule: "one case = (graph of 0..30 one-label vertices whose field values form a seeded multiset: missing, null, bool, string, negative/zero/fractional numbers, list, map, duplicates; a traversal V()[.hasLabel|.out] feeding aggregate() with 1..4 uniquely named aggregations: count, term (size 0/1/2/100), histogram (interval 1/2/5), percentile (several percent lists), field, type; capacity divisor, policy, schedule seed); every aggregation is judged against a direct computation over the reference rows and re-run alone (independence). non-trivial = non-empty input; distinct = distinct (graph, aggregations, divisor, decision-sequence hash)",
 		Assumptions: []string{"the rows entering aggregate() are those of refql for the prefix", "term ties and the UNKNOWN type bucket are not judged", "percentiles are judged only by monotonicity and range (the estimator is approximate)"}}
 }
+
+func init() {
+	props["C18"] = &propCfg{Level: "exploration", QuickRuns: 6000, QuickS: 50, ThoroughRuns: 600000, ThoroughS: 1500, Race: true, CrashIsViolation: true,
+		Rule: "server-bulk: one case = an element stream (valid/invalid mix, repeated ids, target graphs g1/g2/a missing graph/a schema graph switching back and forth, lengths 0..20 and around the scaled 100-slot hand-off buffer, optional client stream error) sent through the real GripServer.BulkAdd over kvgraph on the simulated disk under a seeded schedule; final observable state must equal refgraph after adding the valid routable elements one at a time in stream order, InsertCount must equal their number, ErrorCount must be >0 iff something was invalid or unroutable. streambatch: util.StreamBatch with batch sizes 1..100 against recording add functions (order and multiplicity per element type, batch size bound, error reporting). non-trivial = at least 2 elements; distinct = distinct (stream, configuration)",
+		Assumptions: []string{"streams containing edges without an id (server generates one) are judged by counts only", "label listings are not compared (recorded C03 findings)", "the per-element policy filter of accounts.BulkWriteFilter is not in the loop (C05 is not claimed)"}}
+}
